@@ -94,4 +94,29 @@ namespace vh
         if (trace) { out += " T: " + steps; }
         return out;
     }
+
+    // eq <program setting g1 and g2>: "ab=… ba=… ci=…" (value::operator== both ways, data::equals
+    // case-insensitive) followed by " hashEq=…" (value::hash(), implementation only)
+    inline std::string verb_eq(const std::vector<std::string>& f)
+    {
+        std::string text = f.size() > 0 ? f[0] : std::string();
+        auto v = make_vm(regmode::real);
+        auto set = v.rt->parser_sqf().parse(*v.rt, text, sqf::runtime::fileio::pathinfo(std::string("f"), std::string()));
+        if (!set.has_value()) { return "parse-error"; }
+        auto context = v.rt->context_create().lock();
+        context->push_frame(sqf::runtime::frame(v.rt->default_value_scope(), *set));
+        sqf::runtime::runtime::result res = sqf::runtime::runtime::result::ok;
+        for (size_t n = 0; n < 5000; n++)
+        {
+            res = v.rt->execute(sqf::runtime::runtime::action::assembly_step);
+            if (res != sqf::runtime::runtime::result::ok) { break; }
+        }
+        if (res != sqf::runtime::runtime::result::empty) { return "eval-error"; }
+        auto ns = v.rt->default_value_scope();
+        auto a = ns->at("g1");
+        auto b = ns->at("g2");
+        auto bs = [](bool x) { return std::string(x ? "true" : "false"); };
+        bool ci = !a.empty() && !b.empty() && a.data()->equals(b.data(), true);
+        return "ab=" + bs(a == b) + " ba=" + bs(b == a) + " ci=" + bs(ci) + " hashEq=" + bs(a.hash() == b.hash());
+    }
 }
